@@ -33,6 +33,14 @@ use std::sync::{Mutex, MutexGuard};
 fn guard(n: u32) -> MutexGuard<'static, u32> { let m: &'static Mutex<u32> = Box::leak(Box::new(Mutex::new(n))); m.lock().unwrap() }
 fn touch<T: std::fmt::Debug>(t: T) { println!("{:?}", t); }
 fn s(x: &str) -> String { x.to_string() }
+/// eviction callbacks with interior state: one that is neither Send nor Sync, one that is Send
+/// but not Sync (its `clone` and `on_evict` touch the Cell through `&self`)
+#[derive(Clone)]
+struct RcCb(Rc<Cell<u32>>);
+impl caches::OnEvictCallback for RcCb { fn on_evict<K, V>(&self, _: &K, _: &V) { self.0.set(self.0.get() + 1); } }
+struct CellCb(Cell<u32>);
+impl Clone for CellCb { fn clone(&self) -> Self { self.0.set(self.0.get() + 1); CellCb(Cell::new(self.0.get())) } }
+impl caches::OnEvictCallback for CellCb { fn on_evict<K, V>(&self, _: &K, _: &V) { self.0.set(self.0.get() + 1); } }
 /// a key that is Send but not Sync
 #[derive(Debug, Clone, PartialEq, Eq, Hash)]
 struct NK(u32, PhantomData<Cell<()>>);
@@ -170,6 +178,19 @@ def gen_probes():
             "    %s\n    let h = std::thread::spawn(move || { touch(c.peek(&1)); drop(c); });\n    h.join().unwrap();" % setup(ty, "u32", "u32", u32k, u32v))
         add("ctl_sync_%s" % ty, "control", ty, "share-cache", False,
             "    %s\n    let cr = &c;\n    std::thread::scope(|sc| {\n        sc.spawn(move || { touch(cr.peek(&1)); });\n        touch(cr.peek(&1));\n    });" % setup(ty, "u32", "u32", u32k, u32v))
+    # ---- the eviction callback is content too
+    add("send_cb_rc_RawLRU", "cross-thread", "RawLRU", "move-cache-nonsend-callback", True,
+        "    let shared = Rc::new(Cell::new(0u32));\n    let mut c = RawLRU::<u32, u32, RcCb>::with_on_evict_cb(1, RcCb(shared.clone())).unwrap();\n    c.put(1, 1);\n"
+        "    let h = std::thread::spawn(move || { c.put(2, 2); c.put(3, 3); drop(c); });\n    shared.set(shared.get() + 1);\n    let s2 = shared.clone();\n    h.join().unwrap();\n    touch(s2.get());")
+    add("sync_cb_rc_RawLRU", "cross-thread", "RawLRU", "share-cache-nonsend-callback", True,
+        "    let shared = Rc::new(Cell::new(0u32));\n    let mut c = RawLRU::<u32, u32, RcCb>::with_on_evict_cb(2, RcCb(shared.clone())).unwrap();\n    c.put(1, 1);\n    let cr = &c;\n"
+        "    std::thread::scope(|sc| {\n        sc.spawn(move || { let d = cr.clone(); drop(d); });\n        let d = cr.clone(); drop(d);\n    });")
+    add("sync_cb_cell_RawLRU", "cross-thread", "RawLRU", "share-cache-nonsync-callback", True,
+        "    let mut c = RawLRU::<u32, u32, CellCb>::with_on_evict_cb(2, CellCb(Cell::new(0))).unwrap();\n    c.put(1, 1);\n    let cr = &c;\n"
+        "    std::thread::scope(|sc| {\n        sc.spawn(move || { let d = cr.clone(); touch(d.len()); });\n        let d = cr.clone(); touch(d.len());\n    });")
+    add("ctl_send_cb_RawLRU", "control", "RawLRU", "move-cache-callback", False,
+        "    let mut c = RawLRU::<u32, u32, CellCb>::with_on_evict_cb(1, CellCb(Cell::new(0))).unwrap();\n    c.put(1, 1);\n"
+        "    let h = std::thread::spawn(move || { c.put(2, 2); let d = c.clone(); touch(d.len()); });\n    h.join().unwrap();")
     # iterators (all per-list iterator families are the same ten iterator types of RawLRU)
     for ty, prefix in [("RawLRU", ""), ("TwoQueueCache", "recent_"), ("TwoQueueCache", "ghost_"), ("AdaptiveCache", "frequent_"), ("AdaptiveCache", "recent_evict_")]:
         for f in ITER_FAMS:
